@@ -36,7 +36,22 @@ def make_pool(rng, work):
     (work / "B.utb").write_text("space \\s 0\nletter a 1\nletter b 12\npunctuation . 256\nalways ab 1-1\n")
     (work / "C.utb").write_text("space \\s 0\nletter a 1\nletter b 12\nnoback pass2 @1-12 @12-1\nnofor pass2 @12-1 @1-12\nnoback correct \"ba\" \"ab\"\nnofor correct \"ab\" \"ba\"\n")
     (work / "D.utb").write_text("space \\s 0\nletter a 1\nletter b 12\ndigit 1 2\nnumsign 3456\nnoback context \"a\"[] @12\nnofor pass3 []@1 ?\n")
-    lists += [str(work / n) for n in ("A.utb", "B.utb", "C.utb", "D.utb")]
+    # V: multipass variables, indices spread over the whole array (0, the last one, and others): a variable left set by
+    # one call must not be seen by the next (they are reset at the start of every stage)
+    nv = int(tablegen.consts().get("NUMVAR", 50))
+    idx = [nv - 1, rng.range(12, 16), rng.range(1, nv - 2), rng.range(nv // 2, nv - 1), 0, rng.range(16, nv - 1), rng.range(2, nv - 1), nv - 2]
+    v = idx
+    (work / "V.utb").write_text(
+        "space \\s 0\nletter a 1\nletter b 12\nletter c 14\nletter d 145\n"
+        "noback pass2 #%d=0@1 @1#%d=1\nnoback pass2 #%d=1@1 @1-1\n" % (v[0], v[0], v[0]) +
+        "noback pass3 #%d=0@12 @12#%d=1\nnoback pass3 #%d=1@12 @12-12\n" % (v[1], v[1], v[1]) +
+        "nofor pass2 #%d=0@14 @14#%d=1\nnofor pass2 #%d=1@14 @14-14\n" % (v[2], v[2], v[2]) +
+        "nofor pass3 #%d=0@145 @145#%d=1\nnofor pass3 #%d=1@145 @145-145\n" % (v[3], v[3], v[3]) +
+        "noback correct #%d=0\"d\" \"d\"#%d=1\nnoback correct #%d=1\"d\" \"dd\"\n" % (v[4], v[4], v[4]) +
+        "nofor correct #%d=0\"a\" \"a\"#%d=1\nnofor correct #%d=1\"a\" \"aa\"\n" % (v[5], v[5], v[5]) +
+        "noback context #%d=0\"c\" @14#%d=1\nnoback context #%d=1\"c\" @14-14\n" % (v[6], v[6], v[6]) +
+        "nofor pass4 #%d=0@1 @1#%d=1\nnofor pass4 #%d=1@1 @1-1\n" % (v[7], v[7], v[7]))
+    lists += [str(work / n) for n in ("A.utb", "B.utb", "C.utb", "D.utb", "V.utb", "V.utb")]
     for i in range(4):
         r = rng.fork(("gt", i))
         entries, rules, letters = tablegen.gen_c06_table(r, directions=("noback", "nofor"))
@@ -54,7 +69,7 @@ def make_calls(rng, lists, n):
         k = rng.below(10)
         generated = "/work-" in tl
         if generated:
-            inp = [rng.choice([97, 98, 32, 46, 49]) for _ in range(rng.range(1, 12))]
+            inp = [rng.choice([97, 98, 99, 100, 32, 46, 49]) for _ in range(rng.range(1, 12))]
         else:
             inp = [c for c in safety.gen_input(rng, 24) if c] or [97]
         mode = rng.choice([0, 0, 4, 1, 128, 256, 4 | 64])
@@ -66,7 +81,7 @@ def make_calls(rng, lists, n):
             x = trans.case_line(fn, mode, inp, outlen, cursor=cur, presence=pres, typeform=[rng.choice([0, 0, 1, 2]) for _ in inp] if pres & 1 else None)
         elif k < 8:
             if mode & 4 or generated:
-                cells = [0x8000 | rng.choice([1, 2, 3, 0, 50, 63, 255, 17]) for _ in range(rng.range(1, 12))]
+                cells = [0x8000 | rng.choice([1, 2, 3, 0, 50, 63, 255, 17, 9, 25]) for _ in range(rng.range(1, 12))]
                 mode |= 4
             else:
                 cells = inp
